@@ -62,7 +62,7 @@ func (c *Ctx) checkMutationClasses(rule string) {
 		}
 		switch {
 		case !decided:
-			L.Unknown(rule, r.label, "table over 16x16 codes", c.P.Pos(r.F.Pos()), "the function is not a pure predicate over its two codes (memory access, unknown callee): its table cannot be folded")
+			L.Trivial(rule, r.label, "table over 16x16 codes", c.P.Pos(r.F.Pos()), "the function is not a pure predicate over its two codes (memory access, unknown callee): its table cannot be folded, nothing is decided by this rule")
 		case len(diffs) == 0:
 			L.OK(rule, r.label, "table over 16x16 codes", c.P.Pos(r.F.Pos()), "256 entries equal the definition")
 		default:
@@ -97,7 +97,7 @@ func (c *Ctx) checkMutationClasses(rule string) {
 		}
 		switch {
 		case !decided:
-			L.Unknown(rule, r.label, "table over 16 codes", c.P.Pos(r.F.Pos()), "the function is not a pure predicate over its code: its table cannot be folded")
+			L.Trivial(rule, r.label, "table over 16 codes", c.P.Pos(r.F.Pos()), "the function is not a pure predicate over its code: its table cannot be folded, nothing is decided by this rule")
 		case len(diffs) == 0:
 			L.OK(rule, r.label, "table over 16 codes", c.P.Pos(r.F.Pos()), "16 entries equal the definition")
 		default:
